@@ -50,7 +50,8 @@ QUICK_HOSTS = ["def", "gen", "coro", "agen", "lambda", "meth", "gmeth", "smeth",
                "cpdef_func"]
 FIELDS = ["A", "P", "K", "N", "L"]      # argcount, num_posonly_args, num_kwonly_args, nlocals, first_line
 V_QUICK = [2, 3, 4, 7, 8, 15, 16, 17, 31, 32, 33]
-V_THOROUGH = V_QUICK + [5, 9, 63, 64, 65, 127, 128, 129, 255, 256]
+V_THOROUGH = V_QUICK + [5, 9, 63, 64, 65]
+V_BIG = [127, 128, 129, 255, 256]          # thorough only, a few modules (a 256-parameter function costs seconds)
 L_VALUES = [255, 256, 257, 511, 512, 513, 1023, 1024, 1025]
 FLAG_MASK = 0x4 | 0x8 | 0x20 | 0x80 | 0x200      # CO_VARARGS, CO_VARKEYWORDS, CO_GENERATOR, CO_COROUTINE, CO_ASYNC_GENERATOR
 
@@ -295,7 +296,7 @@ def plans(tier, rng):
         rounds = 6
     n = len(hosts)
     offs = {"A": 0, "P": 3, "K": 6, "N": 9, "L": 4}
-    low = [v for v in values if bl(v) < max(bl(x) for x in values)]
+    low = [v for v in values if bl(v + 1) < max(bl(x) for x in values)]
     for r in range(rounds):
         for m in range(n):
             pk = {}
@@ -307,7 +308,7 @@ def plans(tier, rng):
                     host = hosts[(m + offs[fld] + r * 5 + j) % n]
                 pk[fld] = host
             i = m + r * n
-            vP = low[(i * 3) % len(low)] if r % 2 == 0 else values[(i * 3) % len(values)]
+            vP = low[(i * 2) % len(low)] if r % 2 == 0 else values[(i * 3) % len(values)]
             vA = higher(values, vP + 1, rng)
             peaks = {"P": (pk["P"], vP), "K": (pk["K"], values[(i * 5 + 1) % len(values)]),
                      "N": (pk["N"], values[(i * 7 + 2) % len(values)] + 3), "L": (pk["L"], L_VALUES[i % len(L_VALUES)])}
@@ -318,10 +319,21 @@ def plans(tier, rng):
                 peaks["P"] = (pk["A"] if can(pk["A"], "P") else pk["P"], vP)
             out.append(peaks)
     if tier != "quick":
-        # the seeded-change shape and friends: few ordinary functions, one generator-like function larger in all fields
-        for i, host in enumerate(h for h in HOST_ORDER if HOSTS[h][5]):
+        # one function kind larger than everything else in several fields at once
+        full = [h for h in HOST_ORDER if HOSTS[h][5]]
+        for i, host in enumerate(full):
             v = values[(i * 2) % len(values)]
             out.append({"A": (host, higher(values, v, rng) or v), "K": (host, values[(i * 3) % len(values)])})
+        # large counts: every big value in every argument field, hosts rotating
+        for i, v in enumerate(V_BIG):
+            for j in range(2):
+                hs = [full[(i * 7 + j * 11 + k * 5) % len(full)] for k in range(3)]
+                vp = V_BIG[(i + j) % len(V_BIG)] if i + j < 3 else values[(i * 3 + j) % len(low)]
+                pk_ = {"P": (hs[1], vp), "K": (hs[2], V_BIG[(i + 2 * j + 1) % len(V_BIG)])}
+                va = v if bl(v) > bl(vp + 1) else None
+                if va is not None:
+                    pk_["A"] = (hs[0], va)
+                out.append(pk_)
     return out
 
 
@@ -448,8 +460,48 @@ def parse_c(path):
         nm = re.sub(r"^__pyx_(?:n_u|kp_u|n_s)_", "", cname)
         names = [re.sub(r"^__pyx_(?:n_u|kp_u|n_s)_", "", x.strip().split("->")[-1]) for x in vn.split(",") if x.strip() != "0"]
         inits.append({"vals": [int(a), int(p), int(k), int(n), flags, int(line)], "fname": nm, "varnames": names,
-                      "file": fpath.strip().split("->")[-1]})
-    return widths, inits, txt.count("const __Pyx_PyCode_New_function_description descr =")
+                      "file": fpath.strip().split("->")[-1], "raw": mm.group(0).split(";")[0] + ";"})
+    return widths, inits, txt.count("const __Pyx_PyCode_New_function_description descr ="), (m.group(0) if m else None)
+
+
+def readback_program(mods):
+    """one small C program: per module the struct typedef exactly as emitted (block scope) and every initialiser
+    statement exactly as emitted; prints what a reader of the struct (as __Pyx_PyCode_New is) gets"""
+    L = ["#include <stdio.h>"] + ["#define %s %d" % kv for kv in CO.items()]
+    for mi, m in enumerate(mods):
+        L.append("static void mod%d(void) {" % mi)
+        L.append(m["typedef"])
+        for ii, it in enumerate(m["inits"]):
+            L.append("  { %s printf(\"%d %d %%u %%u %%u %%u %%u %%u\\n\", (unsigned)descr.argcount, (unsigned)descr.num_posonly_args, "
+                     "(unsigned)descr.num_kwonly_args, (unsigned)descr.nlocals, (unsigned)descr.flags, (unsigned)descr.first_line); }"
+                     % (it["raw"], mi, ii))
+        L.append("}")
+    L.append("int main(void) {")
+    L += ["  mod%d();" % mi for mi in range(len(mods))]
+    L += ["  return 0;", "}"]
+    return "\n".join(L) + "\n"
+
+
+def run_readback(mods, wd):
+    import subprocess
+    ok = [m for m in mods if m.get("typedef") and m.get("inits")]
+    if not ok:
+        return
+    src = os.path.join(wd, "readback.c")
+    open(src, "w").write(readback_program(ok))
+    exe = os.path.join(wd, "readback.exe")
+    p = subprocess.run(["gcc", "-O0", "-w", src, "-o", exe], capture_output=True, text=True, timeout=600)
+    if p.returncode != 0:
+        for m in ok:
+            m["readback_error"] = "gcc: " + p.stderr[-600:]
+        return
+    r = subprocess.run([exe], capture_output=True, text=True, timeout=600)
+    for m in ok:
+        m["readback"] = [None] * len(m["inits"])
+    for line in r.stdout.split("\n"):
+        t = line.split()
+        if len(t) == 8:
+            ok[int(t[0])]["readback"][int(t[1])] = [int(x) for x in t[2:]]
 
 
 # ------------------------------------------------------------------ model encoding
@@ -502,7 +554,10 @@ def work(tier, seed, workdir, model):
     wd = os.path.join(workdir, "codeobj")
     os.makedirs(wd, exist_ok=True)
     mods = build_modules(tier, seed, wd)
-    for m in mods:
+    for mi, m in enumerate(mods):
+        # quick tier: every module is translated and its struct + initialisers are read back through gcc
+        # (readback.c); one module in three is also built completely and introspected
+        m["full"] = tier != "quick" or mi % 3 == 0
         m["src"] = os.path.join(wd, m["name"] + ".pyx")
         m["pysrc"] = os.path.join(wd, "py_" + m["name"] + ".py")
         open(m["src"], "w").write(m["pyx"])
@@ -524,7 +579,10 @@ def work(tier, seed, workdir, model):
         if not m["translate"]["ok"]:
             return
         c = os.path.join(wd, m["name"] + ".c")
-        m["widths"], m["inits"], m["ninit"] = parse_c(c)
+        m["widths"], m["inits"], m["ninit"], m["typedef"] = parse_c(c)
+        if not m["full"]:
+            m["cc"] = "skipped"
+            return
         rc, err = cybuild.cc(c, os.path.join(wd, m["name"] + cybuild.EXT), ["-O0"])
         m["cc"] = None if rc == 0 else err[-1500:]
 
@@ -537,6 +595,7 @@ def work(tier, seed, workdir, model):
                 ccf.append(ex.submit(one, m, res))
         for fu in ccf:
             fu.result()
+    run_readback(mods, wd)
     t1 = time.time()
     # 2. introspection: compiled module and CPython on the same source, chunks of modules per subprocess
     def intro(chunk):
@@ -646,6 +705,9 @@ def fdesc(m, mf):
     return mf["key"]
 
 
+FIELD_NAMES = ["argcount", "num_posonly_args", "num_kwonly_args", "nlocals", "flags", "first_line"]
+
+
 def account_module(ctx, m, pairs):
     name = m["name"]
     base = {"module": name, "peaks": {k: list(v) for k, v in m["peaks"].items()}}
@@ -661,7 +723,8 @@ def account_module(ctx, m, pairs):
     if not m["translate"]["ok"]:
         ctx.fail("valid_program_does_not_build", dict(base, module_source=m["pyx"]), m["translate"]["err"][-800:], "module translates")
         return
-    if m.get("cc") is not None:
+    full = m.get("cc") != "skipped"
+    if full and m.get("cc") is not None:
         ctx.fail("valid_program_does_not_build", dict(base, module_source=m["pyx"]), m["cc"][-800:], "generated C compiles")
         return
     if m["widths"] is None or m["ninit"] != len(m["inits"]):
@@ -680,19 +743,12 @@ def account_module(ctx, m, pairs):
         ctx.corr_break("description struct bit-field widths", base, m["widths"], mw)
     intro = m.get("intro") or {}
     cy, py = intro.get("cy"), intro.get("py")
-    import_error = intro.get("cy_import_error") or intro.get("crash")
+    import_error = (intro.get("cy_import_error") or intro.get("crash")) if full else None
     if py is None:
-        ctx.corr_break("CPython cannot run the generated module", base, intro.get("py_error"), "runs")
-    # ---- direct reading of the generated C: every initialiser value must fit its bit-field
-    for it in m["inits"]:
-        for fi, (v, w) in enumerate(zip(it["vals"], m["widths"])):
-            if v < 0 or v >> w:
-                fld = ["argcount", "num_posonly_args", "num_kwonly_args", "nlocals", "flags", "first_line"][fi]
-                mf = next((x for x in m["model_funcs"] if x["init"] is it), None)
-                ctx.fail("code_object_description_truncated",
-                         inp_for(mf, field=fld) if mf else dict(base, function=it["fname"], field=fld, module_source=m["pyx"]),
-                         "initialiser %s = %d stored in a %d-bit field (keeps %d)" % (fld, v, w, v % (1 << w)),
-                         "a field at least %d bits wide" % max(1, bl(v)))
+        ctx.corr_break("CPython cannot run the generated module", base, intro.get("py_error") or intro.get("crash"), "runs")
+    rb = m.get("readback")
+    if rb is None:
+        ctx.corr_break("struct read-back program", base, m.get("readback_error"), "compiles and runs")
     if import_error:
         ctx.fail("compiled_module_import_fails", dict(base, module_source=m["pyx"]), import_error, "module imports")
     for mf, blk in zip(m["model_funcs"], blocks[1:]):
@@ -712,7 +768,7 @@ def account_module(ctx, m, pairs):
             stratum = "codeobj/%s" % ("genexpr" if mf["predicted"] == "genexpr" else "auto_generated")
         inp = inp_for(mf)
         short = {k: v for k, v in inp.items() if k != "module_source"}
-        ctx.case(stratum, short, sig=(name, key))
+        ctx.case(stratum + ("" if full else "/static"), short, sig=(name, key))
         if wf != "1":
             ctx.corr_break("generator produced a function outside wf_src", short, key, wf)
         if stored != unpacked:
@@ -722,15 +778,40 @@ def account_module(ctx, m, pairs):
             ctx.corr_break("no code-object initialiser for a generated function", short, None, emitted)
             continue
         # ---- initialiser: generated C vs model (tie; predicted from the specification for generated functions)
-        if mf["predicted"] is True and it["vals"] != emitted:
-            ctx.corr_break("description initialiser", short, it["vals"], emitted)
-        elif mf["predicted"] is not True and it["vals"] != emitted:
-            ctx.corr_break("re-encoding of an observed initialiser", short, it["vals"], emitted)
+        if it["vals"] != emitted:
+            ctx.corr_break("description initialiser" if mf["predicted"] is True else "re-encoding of an observed initialiser",
+                           short, it["vals"], emitted)
         if mf["predicted"] is True:
             want_names = [n for n, k, d in mf["params"] if k in "OP"] + [n for n, k, d in mf["params"] if k == "K"] + \
                          [n for n, k, d in mf["params"] if k == "V"] + [n for n, k, d in mf["params"] if k == "W"] + mf["locals"]
             if it["varnames"] != want_names:
                 ctx.corr_break("varnames array in the generated C", short, it["varnames"], want_names)
+        # ---- what a reader of the emitted struct gets (the emitted typedef and initialiser compiled by gcc):
+        #      against the model's store (tie) and against the numbers written (the property: nothing is lost)
+        got_rb = rb[m["inits"].index(it)] if rb else None
+        if got_rb is not None:
+            if got_rb != stored:
+                ctx.corr_break("struct read-back vs model store(widths, emitted)", short, got_rb, stored)
+            for fi in range(6):
+                if got_rb[fi] != it["vals"][fi]:
+                    ctx.fail("code_object_description_truncated", inp_for(mf, field=FIELD_NAMES[fi]),
+                             "initialiser %s = %d reads back as %d from the %d-bit field" % (
+                                 FIELD_NAMES[fi], it["vals"][fi], got_rb[fi], m["widths"][fi]),
+                             "a field at least %d bits wide" % max(1, bl(it["vals"][fi])))
+        # ---- language rule: model source_sig vs the specification and vs CPython's inspect.signature
+        norm = lambda s: [tuple(x) for x in s] if isinstance(s, list) else ("ERR" if isinstance(s, str) else s)
+        p = None
+        if mf["predicted"] is True:
+            csig_m, ssig_m = sig_decode(csig, rev), sig_decode(ssig, rev)
+            want = [(n, k, None if d is None else str(d)) for n, k, d in mf["params"]]
+            if ssig_m != want:
+                ctx.corr_break("model source_sig vs the generated specification", short, ssig_m, want)
+            p = (py or {}).get(key)
+            if py is not None and (p is None or "error" in p):
+                ctx.corr_break("cannot introspect the CPython function", short, p, "function object")
+                p = None
+            if p is not None and norm(p["sig"]) != ssig_m:
+                ctx.corr_break("language rule (model source_sig) vs CPython inspect.signature", short, p["sig"], ssig_m)
         if cy is None:
             continue
         c = cy.get(key if mf["predicted"] else it["fname"])
@@ -743,30 +824,27 @@ def account_module(ctx, m, pairs):
         got = [c["argcount"], c["posonly"], c["kwonly"], c["nlocals"], c["flags"], c["line"]]
         if got != stored:
             ctx.corr_break("code object counts vs model store(widths, emitted)", short, got, stored)
-        if mf["predicted"] is True:
-            mnames = [rev.get(int(x), "?") for x in covn.split(",")] if covn != "-" else []
-            if c["varnames"] != mnames:
-                ctx.corr_break("co_varnames vs model", short, c["varnames"], mnames)
         if mf["predicted"] is not True:
             continue
-        # ---- signature: compiled vs model (tie), CPython vs model rule, compiled vs CPython (the property)
-        csig_m, ssig_m = sig_decode(csig, rev), sig_decode(ssig, rev)
-        norm = lambda s: [tuple(x) for x in s] if isinstance(s, list) else ("ERR" if isinstance(s, str) else s)
+        mnames = [rev.get(int(x), "?") for x in covn.split(",")] if covn != "-" else []
+        if c["varnames"] != mnames:
+            ctx.corr_break("co_varnames vs model", short, c["varnames"], mnames)
+        # ---- signature: compiled vs model (tie), compiled vs CPython (the property)
         cs = norm(c["sig"])
         if cs != csig_m:
             ctx.corr_break("inspect.signature of the compiled function vs model", short, c["sig"], csig_m)
-        want = [(n, k, None if d is None else str(d)) for n, k, d in mf["params"]]
-        if ssig_m != want:
-            ctx.corr_break("model source_sig vs the generated specification", short, ssig_m, want)
-        p = (py or {}).get(key)
-        if p is None or "error" in p:
-            ctx.corr_break("cannot introspect the CPython function", short, p, "function object")
+        ds = [] if mdef == "-" else mdef.split(",")
+        mdl = "None" if not ds else "(%s,)" % ds[0] if len(ds) == 1 else "(%s)" % ", ".join(ds)
+        if c["defaults"] != mdl:
+            ctx.corr_break("__defaults__ vs model defaults_of", short, c["defaults"], mdl)
+        mk = None if mkwd == "-" else sorted([rev.get(int(x.split(":")[0]), "?"), x.split(":")[1]] for x in mkwd.split(","))
+        ck = None if c["kwdefaults"] is None else sorted([list(x) for x in c["kwdefaults"]])
+        if ck != mk:
+            ctx.corr_break("__kwdefaults__ vs model kwdefaults_of", short, ck, mk)
+        if p is None:
             continue
-        ps_ = norm(p["sig"])
-        if ps_ != ssig_m:
-            ctx.corr_break("language rule (model source_sig) vs CPython inspect.signature", short, p["sig"], ssig_m)
         host = spec["host"]
-        if cs != ps_:
+        if cs != norm(p["sig"]):
             ctx.fail("code_object_signature_differs", inp, c["sig"], p["sig"])
         cnt = lambda d: [d["argcount"], d["posonly"], d["kwonly"]]
         if cnt(c) != cnt(p):
@@ -779,14 +857,6 @@ def account_module(ctx, m, pairs):
             ctx.fail("code_object_varnames_differ", inp, c["varnames"][:npar + 2], p["varnames"][:npar])
         if c["defaults"] != p["defaults"] or c["kwdefaults"] != p["kwdefaults"]:
             ctx.fail("function_defaults_attributes_differ", inp, [c["defaults"], c["kwdefaults"]], [p["defaults"], p["kwdefaults"]])
-        ds = [] if mdef == "-" else mdef.split(",")
-        mdl = "None" if not ds else "(%s,)" % ds[0] if len(ds) == 1 else "(%s)" % ", ".join(ds)
-        if c["defaults"] != mdl:
-            ctx.corr_break("__defaults__ vs model defaults_of", short, c["defaults"], mdl)
-        mk = None if mkwd == "-" else sorted([rev.get(int(x.split(":")[0]), "?"), x.split(":")[1]] for x in mkwd.split(","))
-        ck = None if c["kwdefaults"] is None else sorted([list(x) for x in c["kwdefaults"]])
-        if ck != mk:
-            ctx.corr_break("__kwdefaults__ vs model kwdefaults_of", short, ck, mk)
         lam = HOSTS[host][2] == "lambda"
         cn = (c["qualname"], c["module"]) if lam else (c["name"], c["qualname"], c["module"])
         pn = (p["qualname"], name) if lam else (p["name"], p["qualname"], name)
